@@ -20,6 +20,7 @@ Enumerated spaces (all exhaustive, no sampling) are listed in ctx.rule.
 import hashlib
 import os
 import shutil
+import signal
 import sys
 import tempfile
 import threading
@@ -93,6 +94,17 @@ def norm(msg):
     return s[:120]
 
 
+CPU_LIMIT_S = 60.0     # per text, CPU time of the parser alone; the slowest enumerated text needs < 2 s
+
+
+class CpuTimeLimitExceeded(BaseException):
+    """The parser did not return within CPU_LIMIT_S seconds of CPU time (treated as non-termination)."""
+
+
+def _on_vtalarm(signum, frame):
+    raise CpuTimeLimitExceeded("no result after %.0f s of CPU time" % CPU_LIMIT_S)
+
+
 class State(object):
     """Per-worker accumulator: Part + minimal counter-example per key + digests of non-trivial cases."""
 
@@ -137,8 +149,15 @@ def judge(st, text, space, want_rule=None, path=PATH):
     for r in ref.rules:
         st.rules[r] = st.rules.get(r, 0) + 1
     nlines = text.count("\n") + 1
+    timed = threading.current_thread() is threading.main_thread()
     try:
-        schema = S.parse_string(text, path)
+        if timed:
+            signal.setitimer(signal.ITIMER_VIRTUAL, CPU_LIMIT_S)
+        try:
+            schema = S.parse_string(text, path)
+        finally:
+            if timed:
+                signal.setitimer(signal.ITIMER_VIRTUAL, 0)
     except S.SchemaError as e:
         part.add("rejected_" + (ref.phase if not ref.ok else "but_valid"))
         line = e.line
@@ -367,6 +386,7 @@ def _recursive_family(st, name, n):
 
 
 def _work(chunk):
+    signal.signal(signal.SIGVTALRM, _on_vtalarm)
     st = State()
     for job in chunk:
         kind = job[0]
@@ -533,6 +553,7 @@ def _run(ctx):
     # (d) every documented rule broken at every site of the real schema
     real = open(os.path.join(build.REPO, "src", "xml", "mjcf.schema"), encoding="utf-8").read()
     base = R.analyse(real)
+    signal.signal(signal.SIGVTALRM, _on_vtalarm)
     st0 = State()
     judge(st0, real, "d:real-schema", path="mjcf.schema")
     if base.ok:
@@ -562,6 +583,7 @@ def _run(ctx):
                     jobs.append(("family", name, n))
     diamonds = [G.use_diamond(n, u) for n in range(0, ctx.q(11, 15)) for u in (False, True)]
 
+    signal.signal(signal.SIGVTALRM, _on_vtalarm)
     col = _Collector(ctx)
     col.merge(st0.finish())
     std = State()
@@ -611,6 +633,7 @@ def _run(ctx):
         "header); distinct = distinct text (64-bit digest), counted over all spaces together."
         % (Lb, Ng, K, "".join(G.CHARS), len(corpus), len(small), "" if thorough else " 16th",
            len(_REAL[1]) if _REAL else 0, ctx.q(11, 15)))
+    ctx.extra["cpu_limit_per_text_s"] = CPU_LIMIT_S
     ctx.assumptions = ["reference reading of points the documentation leaves open: " + u for u in R.UNSPECIFIED] + [
         "parse_string(text, path) is called with a str; recursion limit is the interpreter default (1000), scaling "
         "families run in a fresh thread so the harness stack depth does not matter",
